@@ -194,6 +194,19 @@ pub fn run(cx: &mut Ctx) {
                 check_plain(c, f, 16, 16, &p, "all 256 values");
             });
         }
+        cx.case("rgba8_extreme_texels", |c| {
+            c.sit("rgba8_all_ff_and_all_00_texels");
+            let (w, h) = (8usize, 8usize);
+            for fill in [0xFFu8, 0x00] {
+                check_plain(c, Fmt::Rgba8, w, h, &vec![fill; 4 * w * h], &format!("uniform texels {:02x}", fill));
+            }
+            // every texel 0xFFFFFFFF except one, at each position of the tile
+            for k in (0..64).step_by(7) {
+                let mut p = vec![0xFFu8; 4 * w * h];
+                p[4 * k..4 * k + 4].copy_from_slice(&[1, 2, 3, 4]);
+                check_plain(c, Fmt::Rgba8, w, h, &p, &format!("white with one odd texel at {}", k));
+            }
+        });
         cx.case("rgba8_random", |c| {
             let mut rng = Rng::new(88);
             let p = rng.bytes(4 * 64 * 32);
